@@ -24,7 +24,11 @@ class BoomRuntime(RuntimeError):
     pass
 
 
-BOOMS = [Boom, BoomType, TypeError, ValueError, BoomKey, BoomRuntime, AttributeError]
+class BoomYP(impl.engine.YPException):
+    """a Python predicate may well raise the engine's own exception class (or a subclass) for its own errors"""
+
+
+BOOMS = [Boom, BoomType, TypeError, ValueError, BoomKey, BoomRuntime, AttributeError, BoomYP, impl.engine.YPException]
 
 
 class C20(C.ProgramDiff):
@@ -36,7 +40,7 @@ class C20(C.ProgramDiff):
             'arguments with each row (fresh variables for non-ground rows) and yield a generated True/False per '
             'solution; registration with inferred arity (fixed signature), explicit arity (fixed signature or *args function), inferred arity of a functools.wraps-decorated function, or '
             'variadic (*args, arity=-1); sometimes the predicates are queried once before they are registered; optionally dynamic facts of the same name/arity are asserted beside them; optionally the '
-            'function raises an exception (private class, TypeError, ValueError, KeyError / RuntimeError subclasses, AttributeError) at its n-th solution. Oracles: answers of every query on the mixed '
+            'function raises an exception (private class, TypeError, ValueError, KeyError / RuntimeError subclasses, AttributeError, YPException of the engine and a subclass of it) at its n-th solution. Oracles: answers of every query on the mixed '
             'engine = answers on the all-compiled engine = reference R; the function saw its arguments in call order '
             'as engine terms reifying to the terms R passes; a raised exception reaches the consumer with the same '
             'class and arguments, the answers before it are a prefix of R\'s, and afterwards every engine variable is '
@@ -80,6 +84,15 @@ class C20(C.ProgramDiff):
         rk = {(r['name'], r['arity']) for r in replaced}
         mixed = [(h, b) for h, b in clauses if (h[1], len(h[2]) if h[0] == 'f' else 0) not in rk]
         queries = [gen.gen_query(src, preds, self.cfg, clauses) for _ in range(3)]
+        for r in replaced:
+            if r['raise_at']:
+                # the raising predicate below findall/3, once/1 or call/N: the exception must still reach the consumer
+                args = tuple(gen.QVARS[i % 3] if i < 3 else ('v', 'Q%d' % i) for i in range(r['arity']))
+                goal = ('f', r['name'], args) if args else ('a', r['name'])
+                queries.append(src.pick([('f', 'findall', (args[0] if args else ('a', 'x'), goal, ('v', 'Q9'))),
+                                         ('f', 'call', (goal,)), ('f', 'once', (goal,)),
+                                         ('f', 'findall', (('a', 'x'), goal, ('v', 'Q9')))]))
+                break
         return {'clauses': clauses, 'text': gen.program_text(clauses), 'mixed_text': gen.program_text(mixed) if mixed else '',
                 'replaced': replaced, 'dyn': dyn, 'queries': queries, 'probe_first': src.n(3) == 2}
 
